@@ -9,6 +9,7 @@ import (
 	_ "verif/props/c06"
 	_ "verif/props/c07"
 	_ "verif/props/c08"
+	_ "verif/props/c09"
 	_ "verif/props/c10"
 	_ "verif/props/c11"
 	_ "verif/props/c12"
